@@ -235,6 +235,10 @@ func touchContent(t *rapid.T, s *hx.Schema, n int, label string) string {
 			fmt.Fprintf(&b, "extend input %s { zq%d: Int%s }\n", td.Name, n, dflt)
 		case hx.KUnion:
 			fmt.Fprintf(&b, "type ZqM%d { a: Int }\nextend union %s = ZqM%d\n", n, td.Name, n)
+		case hx.KScalar:
+			// a scalar may be declared again (files tend to declare the scalars they use): the first
+			// declaration stays as it is
+			fmt.Fprintf(&b, "\"declared again in load %d\"\nscalar %s\n", n, td.Name)
 		}
 	}
 	return b.String()
